@@ -363,7 +363,14 @@ class NumpyFloatToFixConverter(object):
         # **NOTE** for some reason just casting resulted in shape
         # being zeroed on some indeterminate selection of OSes,
         # architectures, Python and Numpy versions"
-        return np.array(vals, copy=True, dtype=self.dtype)
+        with np.errstate(invalid="ignore"):
+            fixed = np.array(vals, copy=True, dtype=self.dtype)
+
+        # The largest 64-bit values cannot be represented exactly as floats so
+        # the clip above may leave values which overflow when cast.
+        fixed[vals >= self.max_value] = self.max_value
+
+        return fixed
 
 
 class NumpyFixToFloatConverter(object):
